@@ -239,6 +239,7 @@ class Walker:
                 fm = None if a is None or b2 is None else (L.add(a, b2) if x["op"] == "+=" else L.sub(a, b2))
             else:
                 fm = None
+            self.nested_incdec(x, st)
             self.assign(st, key, fm)
             return
         if k == "Un" and x["op"] in ("post++", "pre++", "post--", "pre--"):
@@ -246,6 +247,20 @@ class Walker:
             a = self.lin(x["a"][0], st)
             d = 1 if "++" in x["op"] else -1
             self.assign(st, key, None if a is None else (a[0], a[1] + d))
+            return
+        self.nested_incdec(x, st)
+
+    def nested_incdec(self, x, st):
+        """`*p++ = v`, `f(i++)`: increments buried inside an element."""
+        from .ir import walk
+        for y in walk(x):
+            if y is x:
+                continue
+            if y.get("k") == "Un" and y["op"] in ("post++", "pre++", "post--", "pre--") and sk(y["a"][0]).get("k") == "Ref":
+                key = pp(sk(y["a"][0]))
+                a = self.lin(y["a"][0], st)
+                d = 1 if "++" in y["op"] else -1
+                self.assign(st, key, None if a is None else (a[0], a[1] + d))
 
     def assign(self, st, key, fm):
         if fm is None:
@@ -259,6 +274,39 @@ class Walker:
     def on_edge(self, b, si, st):
         """Hook called after the assumption of edge si was added; return False to prune."""
         return True
+
+    def run_unrolled(self, start, st, stops, maxvisit=2):
+        """Like run(), but a block may be entered up to `maxvisit` times on one
+        path (bounded unrolling of loops); further entries end the path silently."""
+        stack = [(start, st, {})]
+        while stack:
+            bid, st, cnt = stack.pop()
+            if bid in stops and cnt:
+                self.npaths += 1
+                if self.npaths > self.maxpaths:
+                    raise AnalysisBroken("path explosion in %s" % self.f.name)
+                self.on_stop(bid, st)
+                continue
+            if cnt.get(bid, 0) >= maxvisit:
+                continue
+            cnt = dict(cnt)
+            cnt[bid] = cnt.get(bid, 0) + 1
+            b = self.f.blocks[bid]
+            for e in b.elems:
+                self.on_elem(b, e, st)
+            succs = [(i, s) for i, s in enumerate(b.succs) if s is not None]
+            if b.noreturn or not succs:
+                self.npaths += 1
+                self.on_stop(None, st)
+                continue
+            two = b.term is not None and b.term.get("cond") is not None and len(b.succs) == 2
+            for i, s in reversed(succs):
+                st2 = st.copy() if len(succs) > 1 else st
+                if two and not self.assume(st2, b.term["cond"], i == 0):
+                    continue
+                if not self.on_edge(b, i, st2):
+                    continue
+                stack.append((s, st2, cnt))
 
     # ---- exploration
     def run(self, start, st, stops, first=True):
